@@ -6,6 +6,8 @@ use sophia_api::term::{BnodeId, IriRef, SimpleTerm};
 use sophia_api::quad::Spog;
 use sophia_c14n::rdfc10::normalize;
 use std::collections::HashSet;
+mod oracle;
+mod rdfc;
 
 fn b(i: usize) -> SimpleTerm<'static> { SimpleTerm::BlankNode(BnodeId::new_unchecked(format!("n{}", i).into())) }
 fn p() -> SimpleTerm<'static> { SimpleTerm::Iri(IriRef::new_unchecked("x:p".into())) }
@@ -18,6 +20,7 @@ fn canon(edges: &[(usize, usize)], relabel: &dyn Fn(usize) -> usize) -> Result<S
 }
 
 fn main() {
+    if std::env::args().nth(1).as_deref() == Some("rdfc") { rdfc::main_rdfc(std::env::args().nth(2).as_deref() == Some("deep")); return; }
     let mut n_cases = 0;
     for n in 2..=5usize {
         let cycle: Vec<(usize, usize)> = (0..n).map(|i| (i, (i + 1) % n)).collect();
